@@ -7,5 +7,6 @@ def run(chk, ctx):
                        "scope: outcome class and final status sets; plus a group of iterative rules (meek-prf, meek, warren, qpq) on elections with ballot multipliers up to 10^6, where keep-factor rounding is amplified and convergence is at stake; oracle: termination (a finite-precision count still running after 4x the budget while the model of the same election ends is a violation with that election as the input; rational counts over budget are 'not explored'), winners = min(seats, electable), "
                        "everyone decided, withdrawn untouched; distinct = (rule, arithmetic, outcome, ties, transfers, defeats, batches, seats, candidates)")
     cc.run(chk, ctx, 'final', ORACLES, 1500, 150000, families=['small', 'tie', 'nearquota', 'chain', 'starved', 'starved', 'withdrawn', 'bigmult', 'hugemult', 'mid', 'coalition'],
-           extra=[('directed-convergence', 800, 40000, ['meek-prf', 'meek-prf', 'meek', 'warren', 'qpq'], ['bigmult'])])
+           extra=[('directed-convergence', 800, 40000, ['meek-prf', 'meek-prf', 'meek', 'warren', 'qpq'], ['bigmult']),
+                  ('directed-writein', 200, 20000, ['mpls'], ['writein_strong'])])
 def replay(chk, payload): return cc.replay(chk, payload, ORACLES)
